@@ -433,3 +433,32 @@ def long_pair(rng):
         short = sorted(set(short) | {rng.choice(long_)})
     trains = [long_, short] if rng.random() < 0.5 else [short, long_]
     return {"ts": ts, "te": te, "step": T / grid, "dyadic": True, "trains": trains}
+
+
+# ----------------------------------------------------------------------------------------- W14 window-scale trains
+def window_scale_list(rng, n_trains=2):
+    """trains whose inter-spike intervals, cross-train offsets and max_tau are all of the same order: ISIs in (m, 2m),
+    partner offsets in +-(0.3m, 1.1m) - the regime in which the max_tau cap, the half-ISI window and the spike distance
+    actually compete.  Arbitrary floats (no grid), so exact ties are not expected."""
+    m = 10.0 ** rng.uniform(-2, 1)
+    ts = rng.choice([0.0, 0.0, 5.0, -3.0])
+    n = rng.randint(4, 14)
+    t = ts + rng.uniform(0.2, 2.0) * m
+    base = []
+    for _ in range(n):
+        base.append(t)
+        t += rng.uniform(1.05, 1.95) * m
+    te = t + rng.uniform(0.0, 2.0) * m
+    trains = [base]
+    for _ in range(n_trains - 1):
+        other = []
+        for u in base:
+            if rng.random() < 0.7:
+                v = u + rng.choice([-1, 1]) * rng.uniform(0.3, 1.1) * m
+                if ts < v < te:
+                    other.append(v)
+        other = sorted(set(other))
+        other = [v for k, v in enumerate(other) if k == 0 or v - other[k - 1] > 1e-9]
+        trains.append(other)
+    rng.shuffle(trains)
+    return {"ts": ts, "te": te, "step": m, "dyadic": False, "trains": trains, "m": m}
